@@ -12,7 +12,11 @@
    a block, trailing comment on a column-0 header, trailing comment on elif/else/except) are now
    covered by positive theorems; their former witnesses are kept as Examples.  The dispatch table is
    the parser WITH the repair "fix: translate `continue` instead of silently dropping it": the three
-   `continue` kinds left DispatchSpec.known_gaps and are pinned (C07_continue_accounted).
+   `continue` kinds left DispatchSpec.known_gaps and are pinned (C07_continue_accounted); and WITH the repair
+   "fix: reject statements the transpiler cannot translate instead of dropping them": the 127 remaining
+   (kind, context) pairs left known_gaps, are pinned Rejected (C07_former_gaps_rejected) and the positive
+   theorem C07_dispatch_total_partial replaces the refutation; the tail of the dispatch loop is modelled
+   (LineDispatch.tail_class) with C07_tail_rejects_unrecognised.
 
    Firmware side: Lang/EmitBlocks.v models what _emit_block / emit() write for the control-flow
    nodes (one stanza per branch, loop and handler, ALSO when its body emitted nothing) and, as
@@ -167,7 +171,7 @@ Print Assumptions C07_relayout_nonvacuous.
 
 (* ---------------------------------------------------------------- line accounting (finite table, regenerated) *)
 
-(* the observed table has a row for each of the 69 statement kinds in each of the 4 contexts *)
+(* the observed table has a row for each of the 70 statement kinds in each of the 4 contexts *)
 Theorem C07_dispatch_complete : complete table = true.
 Proof. exact dispatch_complete. Qed.
 Print Assumptions C07_dispatch_complete.
@@ -198,8 +202,31 @@ Theorem C07_continue_accounted : forall c,
 Proof. exact continue_accounted. Qed.
 Print Assumptions C07_continue_accounted.
 
-(* the property at full strength is false: each listed gap is a statement kind outside the fixed
-   set that the current parser drops without a diagnostic *)
+(* (repaired; was the content of C07_dispatch_total_refuted with 123 listed gaps - findings F-C07-drop-del ...
+   F-C07-drop-try-finally-else, F-C06-for-over-list) a statement that is neither in the fixed set of the property
+   nor the one gap still listed is NEVER dropped: whatever the table holds for it is Translated or Rejected *)
+Theorem C07_dispatch_total_partial : forall k c o,
+  lookup k c table = Some o -> allowed k = false -> known_gap k c = false -> o <> Ignored.
+Proof. exact dispatch_total. Qed.
+Print Assumptions C07_dispatch_total_partial.
+
+(* ... and each of the 127 (kind, context) pairs that used to be dropped (del, assert, raise, with, match, class,
+   nested / async def, decorator, loop else, for over an iterable, finally / try-else, annotated / chained /
+   subscript / attribute assignment, walrus, yield, await, nonlocal, unknown methods of a declared device, calls on
+   an undeclared receiver, `;`-joined statements, continuation lines, bodies on the header line) is now rejected
+   with an error, is outside the fixed set and is no longer tolerated as a gap *)
+Theorem C07_former_gaps_rejected : forall p, In p former_gaps ->
+  lookup (fst p) (snd p) table = Some Rejected /\ allowed (fst p) = false /\ known_gap (fst p) (snd p) = false.
+Proof. exact former_gaps_rejected. Qed.
+Print Assumptions C07_former_gaps_rejected.
+
+Example C07_former_gaps_nonvacuous : (length former_gaps = 127)%nat /\ (length known_gaps = 4)%nat.
+Proof. exact former_gaps_count. Qed.
+Print Assumptions C07_former_gaps_nonvacuous.
+
+(* the property at full strength is still false for ONE kind: the documented host-side calls
+   SerialMonitor.connect() / close() on a declared monitor are skipped without a diagnostic
+   (finding F-C07-drop-serial-host-call) *)
 Theorem C07_dispatch_total_refuted :
   (exists k c, allowed k = false /\ lookup k c table = Some Ignored)
   /\ forall p, In p known_gaps -> gap_real p = true.
@@ -336,7 +363,7 @@ Theorem C07_rx_match_decides : forall r s, rx_match r s = true <-> lang r s.
 Proof. exact rx_match_ok. Qed.
 Print Assumptions C07_rx_match_decides.
 
-(* 63 of the 74 RE_* patterns of the CURRENT parser.py are instances of five shapes (method call without /
+(* 63 of the 76 RE_* patterns of the CURRENT parser.py are instances of five shapes (method call without /
    with arguments, device declaration, import, sleep) or the two target(...) patterns of Lang/Lex.v *)
 Theorem C07_patterns_have_their_shapes : forall p, In p shape_table -> fst p = snd p.
 Proof. exact shapes_agree. Qed.
@@ -378,7 +405,9 @@ Print Assumptions C07_sleep_spacing.
 
 (* outside the guard the property fails (findings F-C07-call-paren-space, F-C07-keyword-paren): Python reads
    `led.on ()`, `led. on()`, `mon.write ("x")`, `if(x>1):` as `led.on()`, `mon.write("x")`, `if (x>1):`;
-   the recognisers do not, and the line falls through the whole chain to the unknown-statement tail *)
+   the recognisers do not, and the line falls through the whole chain to the tail - where, since the repair
+   of the silent drops, it is REJECTED (C07_tail_never_drops, C07_tail_examples) instead of disappearing: the
+   re-layout changes whether the script is accepted, it no longer changes the firmware silently *)
 Theorem C07_call_paren_space_refuted :
   exists name meth g0 g1 g2 g3,
     is_ident name = true /\ gap g0 = true /\ gap g1 = true /\ gap g2 = true /\ gap g3 = true /\
@@ -411,6 +440,44 @@ Theorem C07_keyword_paren_refuted :
   is_tail (hd_of (dispatch chain false [] s_if_paren)) = true.
 Proof. exact keyword_paren_refuted. Qed.
 Print Assumptions C07_keyword_paren_refuted.
+
+(* ---------------------------------------------------------------- the end of the dispatch loop (repaired) *)
+
+(* what the CURRENT source does with a line no recogniser took (read by the translator): `pass` and global
+   declarations are skipped, an expression _to_c_expr refuses raises, anything else raises *)
+Theorem C07_tail_pinned :
+  tail_benign_eq = [s_pass] /\ map snd tail_benign_rx = [RE_GLOBAL] /\ tail_rejects = true /\ tail_expr_failure_rejects = true.
+Proof. exact tail_pinned. Qed.
+Print Assumptions C07_tail_pinned.
+
+(* (repaired; the tail used to end with "unknown -> ignore") no line that reaches the end of the loop is dropped *)
+Theorem C07_tail_never_drops : forall isexpr line,
+  tail_class_of tail_benign_eq tail_benign_rx tail_rejects isexpr line <> TDropped.
+Proof. exact tail_never_drops. Qed.
+Print Assumptions C07_tail_never_drops.
+
+(* a line that is neither translated (no recogniser, not an expression) nor benign (`pass`, a global declaration)
+   is rejected - for every line *)
+Theorem C07_tail_rejects_unrecognised : forall line,
+  tail_class_of tail_benign_eq tail_benign_rx tail_rejects false line = TReject
+  <-> (line <> s_pass /\ rx_match RE_GLOBAL line = false).
+Proof. exact tail_rejects_unrecognised. Qed.
+Print Assumptions C07_tail_rejects_unrecognised.
+
+(* non-vacuity, both sides: `pass`, `global x`, `global a ,b_2` skipped; `globalx`, `global`, `global x; y = 5`, `del x`,
+   `pass x` and the header `if(x>1):` of finding F-C07-keyword-paren rejected (no longer dropped) *)
+Example C07_tail_examples :
+  tail_class_of tail_benign_eq tail_benign_rx tail_rejects false s_pass = TBenign /\
+  tail_class_of tail_benign_eq tail_benign_rx tail_rejects false [103;108;111;98;97;108;32;120] = TBenign /\
+  tail_class_of tail_benign_eq tail_benign_rx tail_rejects false [103;108;111;98;97;108;32;97;32;44;98;95;50] = TBenign /\
+  tail_class_of tail_benign_eq tail_benign_rx tail_rejects false [103;108;111;98;97;108;120] = TReject /\
+  tail_class_of tail_benign_eq tail_benign_rx tail_rejects false [103;108;111;98;97;108] = TReject /\
+  tail_class_of tail_benign_eq tail_benign_rx tail_rejects false [103;108;111;98;97;108;32;120;59;32;121;32;61;32;53] = TReject /\
+  tail_class_of tail_benign_eq tail_benign_rx tail_rejects false [100;101;108;32;120] = TReject /\
+  tail_class_of tail_benign_eq tail_benign_rx tail_rejects false [112;97;115;115;32;120] = TReject /\
+  tail_class_of tail_benign_eq tail_benign_rx tail_rejects false s_if_paren = TReject.
+Proof. exact tail_examples. Qed.
+Print Assumptions C07_tail_examples.
 
 (* the Led recognisers are unguarded: any receiver that is not a declared RGB LED is taken for a Led *)
 Example C07_led_handler_unguarded :
